@@ -41,6 +41,14 @@ type sItem struct {
 	H     int      `json:"h,omitempty"`
 	N     int      `json:"n,omitempty"`  // message/presence/iq stanza id for post-session traffic
 	NS    string   `json:"ns,omitempty"` // iq: written in this namespace instead of the stream's default one (an element that is merely CALLED iq)
+	// KeepID (iq): the scripted server writes an <iq/> that answers a client iq request (bind, session) with the id of
+	// THAT request, whatever ID says, as a server does (RFC 6120 8.2.3). KeepID: ID is written as it stands - an iq
+	// that does not answer the pending request; ID "@bind" then stands for the id of the client's bind request
+	// (a bind result sent once more).
+	KeepID bool `json:"keep_id,omitempty"`
+	// Open (header): "" the opening element of the transport in use; "other": the opening element of the OTHER
+	// transport (<open xmlns='urn:ietf:params:xml:ns:xmpp-framing'/> over TCP, <stream:stream> over WebSocket)
+	Open string `json:"open,omitempty"`
 }
 
 func attrEsc(s string) string {
@@ -53,6 +61,9 @@ func (it sItem) xml() string {
 	it.ID = attrEsc(it.ID)
 	switch it.T {
 	case "header":
+		if it.Open == "other" {
+			return fmt.Sprintf("<open xmlns='urn:ietf:params:xml:ns:xmpp-framing' from='localhost' id='%s' version='1.0'/>", it.ID)
+		}
 		return fmt.Sprintf("<?xml version='1.0'?><stream:stream xmlns='jabber:client' xmlns:stream='http://etherx.jabber.org/streams' from='localhost' id='%s' version='1.0'>", it.ID)
 	case "features":
 		var b strings.Builder
@@ -445,7 +456,9 @@ func (s *scriptedServer) serve(conn net.Conn, sc connScript, lg *connLog) {
 	dec := xml.NewDecoder(pr)
 	sent := 0
 	items := 0
-	holding := false // </stream:stream> sent with HoldAfterClose: wait for the client's closing tag
+	pendingIQ, bindIQ := "", "" // id of the client iq request being answered / of its bind request
+	otherOpen := false          // the stream was "opened" with the opening element of the other transport
+	holding := false            // </stream:stream> sent with HoldAfterClose: wait for the client's closing tag
 	noticed := -1
 	peek := func() {
 		if sc.PeekMs > 0 && noticed < 0 && pr.peek(time.Duration(sc.PeekMs)*time.Millisecond, dec.InputOffset()) {
@@ -499,6 +512,7 @@ func (s *scriptedServer) serve(conn net.Conn, sc connScript, lg *connLog) {
 					}
 				}
 				record(cElem{Kind: "open", A: to})
+				pendingIQ = ""
 				reply = true
 			} else {
 				var n genericNode
@@ -531,7 +545,9 @@ func (s *scriptedServer) serve(conn net.Conn, sc connScript, lg *connLog) {
 					reply = false
 				case "jabber:client iq":
 					e = cElem{Kind: "iq", A: n.attr("type"), B: n.attr("id")}
+					pendingIQ = n.attr("id")
 					if b := n.child("bind"); b != nil {
+						bindIQ = n.attr("id")
 						e.Kind = "bind"
 						if r := b.child("resource"); r != nil {
 							e.C = r.Content
@@ -540,7 +556,10 @@ func (s *scriptedServer) serve(conn net.Conn, sc connScript, lg *connLog) {
 						e.Kind = "session"
 					} else {
 						reply = false
+						pendingIQ = ""
 					}
+				default:
+					pendingIQ = ""
 				}
 				record(e)
 			}
@@ -583,7 +602,26 @@ func (s *scriptedServer) serve(conn net.Conn, sc connScript, lg *connLog) {
 				time.Sleep(time.Duration(it.N) * time.Millisecond)
 				continue
 			}
-			if _, err := cur.Write([]byte(it.xml())); err != nil {
+			if it.T == "iq" {
+				switch {
+				case !it.KeepID && pendingIQ != "":
+					it.ID = pendingIQ // the answer carries the id of the request
+				case it.KeepID && it.ID == "@bind":
+					it.ID = bindIQ
+					if pendingIQ == bindIQ {
+						it.ID = "zz-" + bindIQ // (in answer to the bind request itself the bind id would be the right one)
+					}
+				}
+			}
+			data := it.xml()
+			if it.T == "header" {
+				otherOpen = it.Open == "other"
+			} else if otherOpen {
+				// after an <open/> in place of <stream:stream> there is no root element whose namespace declarations
+				// the later elements could inherit: they carry their own, as over a websocket
+				data = it.wsXML()
+			}
+			if _, err := cur.Write([]byte(data)); err != nil {
 				end("write-error")
 				return
 			}
